@@ -158,3 +158,19 @@ Theorem C16_writes_after_recovery_survive : forall img bs s,
 Proof. exact writes_after_recovery_survive. Qed.
 Print Assumptions C16_writes_after_recovery_survive.
 
+
+(** ** a file cut exactly between two fragments of a record (found while re-proving the theorems
+    above after the repair of D19): it must not count as entirely read, otherwise it is reopened
+    for appending and the appended records cut the partial record short — the reader then counts a
+    dropped fragment and manifest recovery rejects the file. B = 64 for speed. *)
+From RainVerif.proofs Require Import LogXProofs.
+Theorem C16_cut_at_fragment_boundary_not_intact :
+  let r1 := repeat 65 80%nat in
+  let f := fst (append 64 7 crc32c 0 r1) in
+  read_all_x 64 7 crc32c f = mkRX [r1] false 0 true /\
+  read_all_x 64 7 crc32c (firstn 64 f) = mkRX [] false 0 false /\
+  read_all_x 64 7 crc32c
+    (firstn 64 f ++ fst (append 64 7 crc32c (blen (firstn 64 f) mod 64) [1; 2; 3]))
+  = mkRX [[1; 2; 3]] false 1 true.
+Proof. exact cut_at_fragment_boundary_not_intact. Qed.
+Print Assumptions C16_cut_at_fragment_boundary_not_intact.
